@@ -61,7 +61,8 @@ struct C06
         }
         Res rs;
         Obs ob;
-        ob.o = call_driver(*drv, rq, rs);
+        // "work bounded by a function of n": one call on at most a few hundred KiB gets 300 ms of CPU (it needs microseconds)
+        ob.o = call_driver(*drv, rq, rs, 300);
         ob.valid = rs.valid;
         ob.size = rs.size;
         return ob;
@@ -108,7 +109,19 @@ struct C06
         for(const Obs* ob : {&hard, &sa, &sb})
         {
             if(ob->o.kind == Out::TIMEOUT) return report("timeout", "size_bytes_checked did not return within the CPU budget", n);
-            if(ob->o.kind == Out::HANDLER) return report("handler", std::string("size_bytes_checked ended in the assertion handler: `") + ob->o.expr + "` in " + ob->o.func, n);
+            if(ob->o.kind == Out::HANDLER)
+            {
+                // the known short-block over-read (field accessors evaluated although the wire block is shorter than the
+                // compiled one) shows as an assertion of a *field* accessor when the compiled block reaches beyond the
+                // view's own bound (n + 64 in this flavour): same root cause, same structural predicate
+                const std::string fn = ob->o.func;
+                if(!w.short_blocks.empty() && (fn == "get_value" || fn == "get_last_value" || fn == "get_static_field_view" || fn == "get_last_static_field_view"))
+                {
+                    sim::stats().count("probe.overread.overread:short-block(as field-accessor assertion)");
+                    return report("overread:short-block", std::string("a field accessor asserted inside size_bytes_checked: `") + ob->o.expr + "` in " + fn, n);
+                }
+                return report("handler", std::string("size_bytes_checked ended in the assertion handler: `") + ob->o.expr + "` in " + ob->o.func, n);
+            }
         }
         if(hard.o.kind == Out::OOB)
         {
@@ -127,7 +140,13 @@ struct C06
         }
         // verdict, from the soft placements (observable even where the hard run faulted)
         if(sa.o.kind == Out::OOB || sb.o.kind == Out::OOB)
-            return report("overread:far", "read beyond n + 64 at offset " + std::to_string(sa.o.kind == Out::OOB ? sa.o.off : sb.o.off), n) && ok;
+        {
+            const long long off = sa.o.kind == Out::OOB ? sa.o.off : sb.o.off;
+            // a compiled block longer than 64 bytes read although the wire block is shorter: the known short-block case
+            for(auto& sbk : w.short_blocks)
+                if(off >= 0 && (u64)off >= sbk.start && (u64)off < sbk.start + sbk.extent) return report("overread:short-block", "read at offset " + std::to_string(off) + " >= n + 64 inside the compiled extent of a level whose wire block is shorter", n) && ok;
+            return report("overread:far", "read beyond n + 64 at offset " + std::to_string(off), n) && ok;
+        }
         if(sa.valid != sb.valid || (sa.valid && sa.size != sb.size))
             return report("poison-dependent", "result depends on bytes at offsets >= n: " + std::to_string(sa.valid) + "/" + std::to_string(sa.size) + " vs " + std::to_string(sb.valid) + "/" + std::to_string(sb.size), n) && ok;
         if(sa.valid != w.valid)
